@@ -49,6 +49,7 @@ func (bucket *Bucket) StartDCPFeed(
 
 	doneChan := args.DoneChan
 	doneChans := map[*Collection]chan struct{}{}
+	var started []*dcpFeed
 	for _, collection := range requestedCollections {
 		// Not bothering to remove scopes from args for the single collection feeds
 		// here because it's ignored by Collection.StartDCPFeed
@@ -63,8 +64,18 @@ func (bucket *Bucket) StartDCPFeed(
 		argsCopy := args
 		argsCopy.DoneChan = doneChans[collection]
 
-		// Ignoring error is safe because Collection doesn't have error scenarios for StartDCPFeed
-		_ = collection.StartDCPFeed(ctx, argsCopy, collectionAwareCallback, dbStats)
+		// A collection's feed can fail to start (its checkpoint or its backfill cannot be read). The
+		// bucket-level feed then fails as a whole: the collection feeds of this call that are already
+		// running are ended again, so that the caller is not left with a partial feed whose done
+		// channel never closes.
+		feed, err := collection.startDCPFeed(ctx, argsCopy, collectionAwareCallback, dbStats)
+		if err != nil {
+			for _, startedFeed := range started {
+				startedFeed.close()
+			}
+			return err
+		}
+		started = append(started, feed)
 	}
 
 	// coalesce doneChans
@@ -88,6 +99,16 @@ func (c *Collection) StartDCPFeed(
 	callback sgbucket.FeedEventCallbackFunc,
 	dbStats *expvar.Map,
 ) error {
+	_, err := c.startDCPFeed(ctx, args, callback, dbStats)
+	return err
+}
+
+func (c *Collection) startDCPFeed(
+	ctx context.Context,
+	args sgbucket.FeedArguments,
+	callback sgbucket.FeedEventCallbackFunc,
+	dbStats *expvar.Map,
+) (*dcpFeed, error) {
 	traceEnter("StartDCPFeed", "collection=%s, args=%+v", c, args)
 	feed := &dcpFeed{
 		ctx:        ctx,
@@ -100,10 +121,10 @@ func (c *Collection) StartDCPFeed(
 	startCas := args.Backfill
 	if args.Backfill == sgbucket.FeedResume {
 		if args.CheckpointPrefix == "" {
-			return fmt.Errorf("feed's Backfill is FeedResume but no CheckpointPrefix given")
+			return nil, fmt.Errorf("feed's Backfill is FeedResume but no CheckpointPrefix given")
 		}
 		if err := feed.readCheckpoint(); err != nil {
-			return fmt.Errorf("couldn't read DCP feed checkpoint: %w", err)
+			return nil, fmt.Errorf("couldn't read DCP feed checkpoint: %w", err)
 		}
 		startCas = feed.lastCas + 1
 	}
@@ -119,7 +140,7 @@ func (c *Collection) StartDCPFeed(
 		feed.events.push(&sgbucket.FeedEvent{Opcode: sgbucket.FeedOpBeginBackfill})
 		err := c.enqueueBackfillEvents(c.bucket._db(), startCas, args.KeysOnly, &feed.events)
 		if err != nil {
-			return err
+			return nil, err
 		}
 		debug("%s ended backfill", feed)
 		feed.events.push(&sgbucket.FeedEvent{Opcode: sgbucket.FeedOpEndBackfill})
@@ -133,7 +154,7 @@ func (c *Collection) StartDCPFeed(
 		c.bucket.collectionFeeds[c.DataStoreNameImpl] = append(c.bucket.collectionFeeds[c.DataStoreNameImpl], feed)
 	}
 	go feed.run()
-	return nil
+	return feed, nil
 }
 
 func (c *Collection) enqueueBackfillEvents(db queryable, startCas uint64, keysOnly bool, q *eventQueue) error {
